@@ -172,12 +172,14 @@ def main(argv=None):
             except Exception:  # noqa: BLE001
                 print(f"CHECKER-ERROR property={prop} binding: contract {o.name!r} targets {fn} which does not exist in the current tree")
                 return 3
+    phases = {"load": round(time.time() - t0, 2)}
     ctx = mp.get_context("fork")
     results = [None] * len(_OSETS)
     with ctx.Pool(min(a.jobs, len(_OSETS))) as pool:
         for idx, rj in pool.imap_unordered(_worker, range(len(_OSETS))):
             results[idx] = rj
 
+    phases["vcs"] = round(time.time() - t0 - phases["load"], 2)
     # interpreter conformance: the same proof scripts, concrete random inputs, CPython vs pyvc
     conf_tries = 8 if a.tier == "quick" else 80
     conf = {"osets": 0, "samples": 0, "compared": 0, "disagreements": []}
@@ -192,6 +194,7 @@ def main(argv=None):
             for d in cr["disagreements"]:
                 conf["disagreements"].append({"oset": _OSETS[idx].name, **d})
 
+    phases["conformance"] = round(time.time() - t0 - phases["load"] - phases["vcs"], 2)
     # thorough tier: independent bounded native search - the executable contracts run on the real package
     # (CPython) on random inputs inside the declared ranges; a failing input is a violation with a native replay
     native_search = {"osets": 0, "inputs": 0, "evaluated": 0, "failures": []}
@@ -361,6 +364,7 @@ def main(argv=None):
                                         "obligation_values_compared_cpython_vs_pyvc": conf["compared"],
                                         "disagreements": len(conf["disagreements"])},
             "history_lemmas": history,
+            "phase_seconds": dict(phases, total=round(wall, 2)),
             "paths_explored": sum(rj["paths"] for rj in results),
             "source_sha256": dict(sorted(_LOADER.source_sha.items())),
             "samples": samples or [{"obligation": n} for n in current_names[:3]],
